@@ -83,6 +83,10 @@ fn do_determinism<E: Engine>(e: &E, cfg: &Cfg, n: u64) -> i32 {
 }
 
 fn main() {
+    // error values of the system under test (anyhow) capture a backtrace whenever these are set, under a
+    // process-wide lock: with the thousands of expected errors per second that serialises all workers
+    std::env::set_var("RUST_BACKTRACE", "0");
+    std::env::set_var("RUST_LIB_BACKTRACE", "0");
     silence_panics();
     let args: Vec<String> = std::env::args().collect();
     if args.len() < 2 {
